@@ -1,7 +1,10 @@
 #!/usr/bin/env bash
-# No-false-alarm campaign: on the unchanged contract every (new oracle, applicable profile) pair is
+# No-false-alarm campaign: on the unchanged contract every (oracle, registered profile) pair is
 # searched with several seeds; every run must report NO-HIT.
 #   ./campaign.sh [iters-per-seed] [seed ...]        (default 50000 and seeds 11 22 33 44)
+#   ORACLES="a b c" ./campaign.sh ...                only these oracles (default: the ten step-level
+#                                                    ones; ORACLES=state = the six state-level ones;
+#                                                    ORACLES=every = all sixteen)
 # Results: target/campaign/<oracle>-<profile>-<seed>.txt ; summary on stdout.
 set -u
 cd "$(dirname "$0")"
@@ -10,7 +13,14 @@ ITERS="${1:-50000}"; shift || true
 SEEDS="${*:-11 22 33 44}"
 JOBS="${JOBS:-14}"
 mkdir -p target/campaign
-NEW="authorization config_change migration admission match_eligibility settlement queries attributes instantiate_coherence"
+STEP="authorization config_change migration admission match_eligibility settlement queries attributes instantiate_coherence storage_format"
+STATE="solvency approver_tracks_size mechanism bid_consistency ask_consistency exit_liveness"
+case "${ORACLES:-}" in
+  "") NEW="$STEP" ;;
+  state) NEW="$STATE" ;;
+  every) NEW="$STEP $STATE" ;;
+  *) NEW="$ORACLES" ;;
+esac
 jobs=()
 for o in $NEW; do
   for p in $($BIN oracles --profiles | sed -n "s/^$o: //p"); do
